@@ -25,6 +25,8 @@ Case:      {"session": {"cols": [[column name, type name], ...],
            describe f: frames[f].description, frame f = DataFrame(rows=[], schema=<the schema object>) created at first use and kept;
            replace: schema.columns[i % len] = FlatColumn(name, type); append: schema.columns.append(FlatColumn(...)); pop: schema.pop_column(name);
            retype: type/length/precision/scale/element_type of the column OBJECT schema.columns[i % len] assigned from from_name(type)
+           (round 6) ["describe_copy", how]: DataFrame(rows=[], schema=<copy of the schema>).description; ["copy_column", i, how]: schema.columns[i % len] =
+           <copy of that column>; how = "copy" | "deepcopy" | "pickle"
 Observed:  {"cols": as for frames (attributes read right after construction),
             "steps": [{"now": [[name, ty, length, precision, scale, element], ...] (the schema's column objects read at this step),
                        "desc": ["raise", what] | [[name, type_code, dprec, dscale, back], ...]}          for describe
@@ -71,7 +73,9 @@ LEVEL_TEXT = ("Machine-checked Coq theorems over the executable model: every wel
               "Constructor keywords (stream 'decl'): FlatColumn(type=<name>, length/precision/scale/element_type omitted | None | value) by keyword and through a spelled-out "
               "schema document; proved: any mixture of omitted and None keywords is the type name alone (so the end-to-end column theorem holds for it), a passed value is what "
               "the column carries; tied to the code on 12 names x all 16 None-subsets, value patterns and random declarations. Malformed names now include formatter / template "
-              "tokens (balanced braces, %, $, backslash escapes, regex groups, NUL, quotes) in every position class.")
+              "tokens (balanced braces, %, $, backslash escapes, regex groups, NUL, quotes) in every position class, and names at scale (nesting / repetition depths 2..5000, "
+              "around and far beyond the interpreter's recursion limit). Sessions also describe through copy.copy / copy.deepcopy / pickle copies of the schema and replace columns by "
+              "copies of themselves (proved: a describe through a copy is the current view and leaves the schema alone).")
 LEVEL_NOTE = ("Trusted: Coq kernel + vm_compute; the hand-written recognisers (validated against CPython's re on the extracted regex texts by the correspondence, "
               "not derived from the regex text); the AST reader in gen(); CPython str.upper / re character classes / int() on non-ASCII characters enter the "
               "correspondence as per-case oracle inputs (the model is evaluated with the interpreter's upper-cased string and the \\d/\\w/\\s membership and digit "
@@ -95,7 +99,9 @@ RULE = ("strings handed to OrsoTypes.from_name, FlatColumn(type=...) and DataFra
         "operations over a 6-name pool; a session is non-trivial when the schema was changed between two descriptions; "
         "declarations with keywords: type name + each of length / precision / scale / element_type omitted, None or a value (element type as member or as a name), by keyword "
         "or through RelationSchema.from_dict with every other field spelled out - exhaustive over 12 names x 16 None-subsets (+5 by document) + 13 value patterns + the name's "
-        "own values; non-trivial when the name resolves and a keyword is passed; template tokens: 36 tokens x 10 placements, plus random insertions")
+        "own values; non-trivial when the name resolves and a keyword is passed; template tokens: 36 tokens x 10 placements, plus random insertions; "
+        "names at scale: 12 depths (2..5000) x 19 shapes of nesting / repetition, also as element_type keyword, frame neighbour and re-declaration; sessions with "
+        "describe_copy / copy_column steps (copy, deepcopy, pickle)")
 TRUSTED = [
     "C06 model (coq/Model/C06.v): recognisers for the four regular expressions with prefix-match semantics (greedy runs; no backtracking is needed because each run is "
     "followed by a character outside its class), str.upper on ASCII, int() as positional decimal with CPython's digit-count limit, from_name's decision tree "
@@ -633,6 +639,20 @@ def _declare(n, s):
     return entry, col
 
 
+COPY_HOW = ["copy", "deepcopy", "pickle"]
+
+
+def _copy_of(obj, how):
+    import copy
+    import pickle
+
+    if how == "copy":
+        return copy.copy(obj)
+    if how == "deepcopy":
+        return copy.deepcopy(obj)
+    return pickle.loads(pickle.dumps(obj))
+
+
 def _observe_session(case):
     """Operations on ONE RelationSchema object, .description through frames that are kept between steps."""
     from orso.dataframe import DataFrame
@@ -686,6 +706,17 @@ def _observe_session(case):
                         c = schema.columns[op[1] % len(schema.columns)]
                         c.type, c.length, c.precision, c.scale, c.element_type = r
                 steps.append({"res": entry})
+            elif kind == "describe_copy":
+                now = _snapshot(schema)
+                steps.append({"now": now, "desc": _describe_entries(DataFrame(rows=[], schema=_copy_of(schema, op[1])))})
+            elif kind == "copy_column":
+                if schema.columns:
+                    i = op[1] % len(schema.columns)
+                    schema.columns[i] = _copy_of(schema.columns[i], op[2])
+                    c = schema.columns[i]
+                    steps.append({"copied": [c.name if isinstance(c.name, str) else ["other", repr(c.name)[:60]]] + _attrs(c)})
+                else:
+                    steps.append({"copied": None})
             else:
                 raise ValueError("unknown session operation %r" % (op,))
         final = _snapshot(schema)
@@ -1016,16 +1047,20 @@ def _oracle_session(case, obs):
             why = _oracle_name(st["res"]["s"], st["res"]["name"], F)
             if why:
                 return why + at
-        elif op[0] == "describe":
+        elif op[0] == "copy_column":
+            pass   # compared with the model; the next describe judges what the copy carries
+        elif op[0] in ("describe", "describe_copy"):
             now, desc = st["now"], st["desc"]
             names = [c[0] for c in now]
-            f = op[1]
-            if f not in seen:
-                seen[f] = names
-            elif seen[f] != names:
-                seen[f] = None      # from now on nothing is demanded of this frame object
-            if seen[f] is None:
-                continue
+            if op[0] == "describe":
+                f = op[1]
+                if f not in seen:
+                    seen[f] = names
+                elif seen[f] != names:
+                    seen[f] = None      # from now on nothing is demanded of this frame object
+                if seen[f] is None:
+                    continue
+            # (a frame on a copy of the schema is a new frame: always demanded)
             if desc and desc[0] == "raise":
                 return f"DataFrame.description failed: {desc[1]}" + at
             if [e[0] for e in desc] != names:
@@ -1091,7 +1126,21 @@ def _oracle_decl(case, obs):
     return why + how if why else None
 
 
+_LONG_RUN = re.compile(r"(.{1,12}?)\1{9,}", re.S)
+
+
+def _abbrev(why):
+    """names at scale make the sentence tens of thousands of characters long: write periodic runs as <unit>*count"""
+    if why is None or len(why) < 400:
+        return why
+    return _LONG_RUN.sub(lambda m: "<%s>*%d" % (m.group(1), len(m.group(0)) // len(m.group(1))), why)
+
+
 def oracle(case, obs):
+    return _abbrev(_oracle(case, obs))
+
+
+def _oracle(case, obs):
     if "frame" in case:
         return _oracle_frame(case, obs)
     if "decl" in case:
@@ -1126,27 +1175,42 @@ def _c_N(n):
     return "(limbs %s)" % L.lst(L.N(x) for x in limbs)
 
 
+_PERIODIC = re.compile(r"(.{2,12}?)\1{7,}", re.S)
+
+
 def _c_text(s):
-    """list N of code points; runs of >= 32 equal characters as `rep count char`."""
+    """list N of code points; runs of >= 32 equal characters as `rep count char`, >= 8 repetitions of a 2..12 character unit as
+    `reps count unit` (deeply nested names are tens of thousands of characters, the terms stay small)."""
     if len(s) < 64:
         return L.text(s)
     parts = []
-    i = 0
     lit = []
+
+    def flush():
+        if lit:
+            parts.append(L.lst(str(ord(c)) for c in lit) + "%N")
+            del lit[:]
+
+    i = 0
     while i < len(s):
         j = i
         while j < len(s) and s[j] == s[i]:
             j += 1
         if j - i >= 32:
-            if lit:
-                parts.append(L.lst(str(ord(c)) for c in lit) + "%N")
-                lit = []
+            flush()
             parts.append("rep %s %s" % (L.N(j - i), L.N(ord(s[i]))))
-        else:
-            lit.extend(s[i:j])
-        i = j
-    if lit:
-        parts.append(L.lst(str(ord(c)) for c in lit) + "%N")
+            i = j
+            continue
+        m = _PERIODIC.match(s, i) if len(s) - i >= 16 else None
+        if m and len(set(m.group(1))) > 1:
+            unit = m.group(1)
+            flush()
+            parts.append("reps %s %s" % (L.N(len(m.group(0)) // len(unit)), L.lst(str(ord(c)) for c in unit) + "%N"))
+            i = m.end()
+            continue
+        lit.append(s[i])
+        i += 1
+    flush()
     return "((" + " ++ ".join(parts) + ") : list N)"
 
 
@@ -1247,6 +1311,23 @@ def _session_to_coq(case, obs):
             c = st["decl"]
             o = "OReplace %d%%nat %s" % (op[1], _c_ci(c)) if op[0] == "replace" else "OAppend %s" % _c_ci(c)
             steps.append("(%s, SDecl %s)" % (o, _c_colres(c["col"])))
+        elif op[0] == "describe_copy":
+            desc = st["desc"]
+            ents = []
+            if desc and desc[0] == "raise":
+                ents = None
+            else:
+                for nm, code, dpr, dsc, back in desc:
+                    if isinstance(nm, list) or isinstance(code, list) or _bad(dpr, dsc):
+                        ents = None
+                        break
+                    ents.append("((%s, %s, %s, %s), %s)" % (_c_text(nm), _c_text(code), _c_optN(dpr), _c_optN(dsc), _c_result(back)))
+            r = "(SPop true)" if ents is None else "(SDesc %s (Ok %s))" % (_c_schema(st["now"]), L.lst(ents))
+            steps.append("(ODescribeCopy %d%%nat, %s)" % (COPY_HOW.index(op[1]), r))
+        elif op[0] == "copy_column":
+            c = st["copied"]
+            r = "SPop false" if c is None else ("SPop true" if isinstance(c[0], list) else "SDecl (Ok %s)" % _c_descr(*c[1:6]))
+            steps.append("(OCopyColumn %d%%nat %d%%nat, %s)" % (op[1], COPY_HOW.index(op[2]), r))
         elif op[0] == "pop":
             steps.append("(OPop %s, SPop %s)" % (_c_text(op[1]), L.boolean(st["found"])))
         else:
@@ -1551,6 +1632,16 @@ def _sessions_exhaustive(tier):
             # grow, describe, re-declare the new column, shrink back
             yield _session(two, [("describe", 0), ("append", "c", new), ("describe", 1), ("replace", 2, "c", old), ("describe", 1),
                                  ("pop", "c"), ("describe", 2), ("describe", 0)])
+    # round 6: the same re-declarations with copies in between - described through copy / deepcopy / pickle of the schema before and
+    # after the change, the changed column replaced by a copy of itself, then the old frame again
+    for old in SESSION_TYPES[::2]:
+        for new in SESSION_TYPES[::2]:
+            if old == new:
+                continue
+            for how in COPY_HOW:
+                yield _session([("a", old), ("b", "INTEGER")],
+                               [("describe_copy", how), ("describe", 0), ("replace", 0, "a", new), ("copy_column", 0, how), ("describe_copy", how),
+                                ("describe", 0), ("copy_column", 1, how), ("retype", 1, old), ("describe_copy", how), ("describe", 1)])
     # the reviewer's shape: three columns, two re-declared, then one dropped and re-added
     yield _session([("amount", "DECIMAL(10,2)"), ("tags", "ARRAY<INTEGER>"), ("label", "VARCHAR[12]")],
                    [("describe", 0), ("replace", 0, "amount", "decimal(38,12)"), ("replace", 1, "tags", "Array<Varchar>"), ("describe", 1),
@@ -1587,8 +1678,12 @@ def _random_session(rng):
             ops.append(("replace", i, n, ty()))
         elif r < 0.74:
             ops.append(("append", rng.choice(pool), ty()))
-        elif r < 0.86:
+        elif r < 0.82:
             ops.append(("pop", rng.choice(pool)))
+        elif r < 0.88:
+            ops.append(("describe_copy", rng.choice(COPY_HOW)))
+        elif r < 0.92:
+            ops.append(("copy_column", rng.randint(0, 5), rng.choice(COPY_HOW)))
         else:
             ops.append(("retype", rng.randint(0, 5), ty()))
     ops.append(("describe", rng.choice([0, 1, 4])))
@@ -1679,6 +1774,49 @@ def _template_names():
         yield "VARCHAR[%s]" % tok
 
 
+# ---- names at scale: nesting / repetition far beyond the interpreter's recursion limit ----------
+SCALE_DEPTHS = [2, 3, 10, 100, 500, 900, 990, 1000, 1010, 1500, 3000, 5000]
+
+
+def _nested(d, inner="INTEGER", opener="ARRAY<", closer=">"):
+    return opener * d + inner + closer * d
+
+
+def _scale_names(tier):
+    depths = list(SCALE_DEPTHS)
+    if tier == "thorough":
+        depths += list(range(200, 2001, 100)) + [10000, 20000]
+    for d in depths:
+        for inner in ("INTEGER", "NOT_A_TYPE"):
+            yield _nested(d, inner)
+            yield _nested(d, inner).lower()
+        yield _nested(d, "DATE", "LIST<")
+        yield _nested(d, "varchar", "Array<")
+        yield "ARRAY<" * d + "INTEGER"                  # never closed
+        yield "INTEGER" + ">" * d
+        yield "ARRAY<" + _nested(d, "INTEGER", "(", ")") + ">"      # one long element group of pattern characters
+        yield "ARRAY<" + "VARCHAR[1]" * d + ">"
+        yield "ARRAY<" + "INTEGER " * d + ">"
+        yield "DECIMAL(" + _nested(d, "1,2", "(", ")")
+        yield "VARCHAR" + _nested(d, "1", "[", "]")
+        yield "DECIMAL(1," + " " * d + "2)"             # a long \s* run: still DECIMAL(1,2)
+        yield "DECIMAL(1,\t" + " \n" * d + "2)trailing"
+        yield "INTEGER" * d
+        yield " " * d + "INTEGER"
+        yield "A" * (10 * d)
+        yield "{" * d + "}" * d
+
+
+def _scale_other():
+    """the same names where a name is an argument of something else: element_type keyword, a neighbour in a frame, a re-declaration"""
+    for d in (1000, 3000):
+        deep = _nested(d)
+        yield _decl("ARRAY", {"element_type": ["name", deep]})
+        yield _decl(deep.lower(), {"precision": ["none"]}, "document")
+        yield _frame(["DECIMAL(10,2)", deep, "ARRAY<INTEGER>"])
+        yield _session([("a", "DECIMAL(10,2)")], [("describe", 0), ("replace", 0, "a", deep), ("retype", 0, deep.lower()), ("append", "b", deep), ("describe", 0)])
+
+
 def exhaustive(tier):
     def it():
         names = _all_names()
@@ -1714,6 +1852,9 @@ def exhaustive(tier):
         yield from _decls_exhaustive(tier)
         for s in _template_names():
             yield {"s": s}
+        for s in _scale_names(tier):
+            yield {"s": s}
+        yield from _scale_other()
         if tier == "thorough":
             for p in range(0, 46):
                 for s in range(0, 46):
@@ -1748,6 +1889,9 @@ def exhaustive(tier):
     label += ("; constructor keywords: %d type names x (every subset of length / precision / scale / element_type passed as None by keyword, five of the subsets also through a fully spelled-out "
               "schema document; %d value patterns; the name's own values spelled out); %d formatter / template tokens (str.format, %%, $, backslash, regex groups, NUL, quotes) "
               "after %d hosts, around a name, and inside ARRAY<>, DECIMAL(), VARCHAR[]" % (len(DECL_TYPES), len(DECL_VALUES), len(TEMPLATE_TOKENS), len(TEMPLATE_HOSTS)))
+    label += ("; names at scale: %d nesting / repetition depths from 2 to 5000 (around and far beyond the recursion limit) x 19 shapes - ARRAY< / LIST< nesting around a member and a "
+              "non-member in both cases, unclosed, surplus closers, long element groups, bracket and parenthesis nesting, long blank runs inside DECIMAL(p, s), long plain text, "
+              "brace nesting - also as element_type keyword, frame neighbour and re-declaration" % len(SCALE_DEPTHS))
     if tier == "thorough":
         label += "; frames: every ordered pair of DECIMAL(p,s) over a 7-value grid and of ARRAY<T> over all names, every ordered triple of 19 spellings"
         label += "; thorough: two further spellings of every DECIMAL(p,s), n in 0..3000, ARRAY<T> in 5 case patterns and with every ASCII character appended, 7 more character positions"
@@ -1931,6 +2075,11 @@ def search(rng):
             pos = rng.randint(0, len(s))
             yield {"s": s[:pos] + rng.choice(TEMPLATE_TOKENS) + s[pos:]}
             continue
+        if r < 0.75:
+            d = rng.choice([50, 400, 950, 1200, 2500, 6000])
+            opener, closer = rng.choice([("ARRAY<", ">"), ("array<", ">"), ("LIST<", ">"), ("(", ")"), ("[", "]"), ("ARRAY<(", ")>")])
+            yield {"s": rng.choice(["", "DECIMAL", "VARCHAR", "x"]) + _nested(d, rng.choice(_all_names() + ["NOPE", "1,2", ""]), opener, closer)}
+            continue
         k = rng.random()
         if k < 0.2:
             yield {"s": _recase(rng, rng.choice(names))}
@@ -1973,6 +2122,13 @@ def shrink(case):
                 yield {"frame": fr[:i] + [["c%d" % i, s]] + fr[i + 1:]}
         return
     s = case["s"]
+    if len(s) > 64:   # long names: drop big chunks first (from the middle outwards keeps nesting balanced)
+        n = len(s)
+        for frac in (2, 4, 8, 16, 64):
+            k = n // frac
+            yield {"s": s[:(n - k) // 2] + s[(n + k) // 2:]}
+            yield {"s": s[k:]}
+            yield {"s": s[:n - k]}
     for i in range(len(s)):
         yield {"s": s[:i] + s[i + 1:]}
     if s != s.upper():
